@@ -45,6 +45,7 @@ type C17Batch struct {
 	ChurnRem int  `json:"churn_rem"` // number of removals produced by add/remove cycles of the pool t0..t<w-1>
 	ChurnW   int  `json:"churn_w"`   // pool width (1..8)
 	Rewrite  bool `json:"rewrite"`   // overwrite the values of the stable elements (they stay present)
+	Rebuild  int  `json:"rebuild"`   // hash/set: swap in an equal collection built independently: 1 built element by element and renamed over it, 2 COPY aside / RENAME back, 3 a STORE form / COPY REPLACE onto itself from a rebuilt copy
 }
 
 type C17Case struct {
@@ -119,6 +120,9 @@ func c17Batch(t *rapid.T, regime int) C17Batch {
 	}
 	b.ChurnW = rapid.IntRange(1, 8).Draw(t, "churnW")
 	b.Rewrite = rapid.IntRange(0, 3).Draw(t, "rewrite") == 0
+	if rapid.IntRange(0, 5).Draw(t, "rebuild") == 0 {
+		b.Rebuild = rapid.IntRange(1, 3).Draw(t, "rebuildhow")
+	}
 	return b
 }
 
@@ -593,7 +597,59 @@ func (w *c17World) apply(b C17Batch, stable int) error {
 			w.put(names, true)
 		}
 	}
+	if b.Rebuild > 0 && w.kind != "keys" && len(w.live) > 0 {
+		// the collection is replaced as a whole by one with exactly the same elements: every element stays present
+		box := c17HashKey
+		if w.kind == "set" {
+			box = c17SetKey
+		}
+		names := make([]string, 0, len(w.live))
+		for n := range w.live {
+			names = append(names, n)
+		}
+		sort.Strings(names)
+		build := func(dst string) {
+			w.p.add(-2, "DEL", dst)
+			for lo := 0; lo < len(names); lo += 100 {
+				hi := min(lo+100, len(names))
+				var a []string
+				if w.kind == "set" {
+					a = append([]string{"SADD", dst}, names[lo:hi]...)
+				} else {
+					a = []string{"HSET", dst}
+					for _, n := range names[lo:hi] {
+						a = append(a, n, w.live[n])
+					}
+				}
+				w.p.add(-2, a...)
+			}
+		}
+		switch b.Rebuild {
+		case 1:
+			build("rebuilt")
+			w.p.add(-1, "RENAME", "rebuilt", box)
+		case 2:
+			w.p.add(-2, "COPY", box, "aside", "REPLACE")
+			w.p.add(-1, "RENAME", "aside", box)
+		default:
+			build("rebuilt")
+			if w.kind == "set" {
+				w.p.add(-2, pick2(len(names), "SUNIONSTORE", "SINTERSTORE"), box, "rebuilt", box)
+			} else {
+				w.p.add(-2, "COPY", "rebuilt", box, "REPLACE")
+			}
+			w.p.add(-2, "DEL", "rebuilt")
+		}
+	}
 	return w.p.flush()
+}
+
+// pick2 chooses between two names from a number (no randomness outside the generators).
+func pick2(n int, a, b string) string {
+	if n%2 == 0 {
+		return a
+	}
+	return b
 }
 
 // ---- the check -------------------------------------------------------------------------------------------
